@@ -117,6 +117,7 @@ class Inliner:
     def _stmt(self, st: ast.stmt, scope: Unit, stack, depth, changed) -> List[ast.stmt]:
         if isinstance(st, (ast.FunctionDef, ast.AsyncFunctionDef, ast.ClassDef)):
             return [st]
+        st = self._loop_test_as_statements(st, scope)
         # compound statements: recurse into their blocks
         for fld in ("body", "orelse", "finalbody"):
             blk = getattr(st, fld, None)
@@ -143,6 +144,46 @@ class Inliner:
         self.log.append(target.short)
         # helpers called by the helper
         return self._block(expansion, scope, stack + (target.fq,), depth + 1, changed)
+
+    def _loop_test_as_statements(self, st: ast.stmt, scope: Unit) -> ast.stmt:
+        """``while A or await helper(..): body`` (helper inlinable) -> the same loop with the test spelled as
+        statements, so that the helper call is a statement of its own:
+
+            while True:
+                if not (A):
+                    c = await helper(..)
+                    if not c: break
+                body
+        """
+        if not isinstance(st, ast.While) or st.orelse:
+            return st
+        test = st.test
+        first: Optional[ast.AST] = None
+        last = test
+        if isinstance(test, ast.BoolOp) and isinstance(test.op, ast.Or) and len(test.values) == 2:
+            first, last = test.values
+        negate = False
+        while isinstance(last, ast.UnaryOp) and isinstance(last.op, ast.Not):
+            last, negate = last.operand, not negate
+        call = last.value if isinstance(last, ast.Await) else last
+        if not isinstance(call, ast.Call):
+            return st
+        t, _r = self._target(call, isinstance(last, ast.Await), scope)
+        if t is None:
+            return st
+        self.counter += 1
+        name = f"__cond__i{self.counter}"
+        assign = ast.copy_location(ast.Assign(targets=[ast.Name(id=name, ctx=ast.Store())], value=last), st)
+        cond = ast.Name(id=name, ctx=ast.Load())
+        leave = ast.copy_location(ast.If(test=cond if negate else ast.UnaryOp(op=ast.Not(), operand=cond),
+                                         body=[ast.copy_location(ast.Break(), st)], orelse=[]), st)
+        head: List[ast.stmt] = [assign, leave]
+        if first is not None:
+            head = [ast.copy_location(ast.If(test=ast.UnaryOp(op=ast.Not(), operand=first), body=head, orelse=[]), st)]
+        new = ast.copy_location(ast.While(test=ast.Constant(value=True), body=head + list(st.body), orelse=[]), st)
+        ast.fix_missing_locations(new)
+        self.caller_locals.add(name)
+        return new
 
     # ------------------------------------------------------------------ sites
     def _sites(self, st: ast.stmt):
